@@ -254,12 +254,12 @@ func TestVerif_C02(t *testing.T) {
 			}
 		}
 		cfgs = append(cfgs, c02cfg{queue: "flow", factor: 1, putters: []int{1, 1, 1}, cancel: true})
-		for _, c := range cfgs {
+		for ci, c := range cfgs {
 			p := P
 			if len(c.putters) > 2 && p > 1 {
 				p-- // three putters: one preemption less to stay within the time budget
 			}
-			vexp.Run(r, vexp.Prog{Name: c.name(), Budget: vsched.Budget{MaxPreempt: p}, Opts: vsched.Options{Horizon: 4000}, Body: c02body(c), Seconds: r.BudgetS / float64(len(cfgs))})
+			vexp.Run(r, vexp.Prog{Name: c.name(), Budget: vsched.Budget{MaxPreempt: p}, Opts: vsched.Options{Horizon: 4000}, Body: c02body(c), Seconds: r.Remaining() / float64(len(cfgs)-ci)})
 		}
 		r.Assume("scheduling points: every mutex lock, cond wait/signal/broadcast, atomic op, channel op; plain memory accesses between them are not interleaved (covered by the separate -race pass)")
 		r.Assume("writer and reader threads follow the call protocol of pipe._backgroundWrite/_backgroundRead")
